@@ -50,13 +50,18 @@ func G(v string, k byte) {
 		Access(v, k)
 	}
 }
+
+// Globals maps "pkg.var" to the address of every package-level variable of the module (filled by generated
+// init functions): the explorer dumps them to see whether using the library changes package-level state.
+var Globals = map[string]any{}
 `
 
 type pkgInfo struct {
-	dir   string
-	name  string // import path suffix, e.g. "parser"
-	files []string
-	vars  map[string]bool
+	dir    string
+	name   string // import path suffix, e.g. "parser"
+	files  []string
+	vars   map[string]bool
+	goName string // package clause name
 }
 
 // fileScopeSpecs are the ValueSpecs of package-level var declarations (a local variable that shadows a
@@ -113,6 +118,7 @@ func Instrument(repo, outDir string) (*Stats, string, error) {
 				continue
 			}
 			parsed[f] = af
+			p.goName = af.Name.Name
 			for _, d := range af.Decls {
 				gd, ok := d.(*ast.GenDecl)
 				if !ok || gd.Tok != token.VAR {
@@ -192,6 +198,28 @@ func Instrument(repo, outDir string) (*Stats, string, error) {
 			}
 			overlay[f] = dst
 		}
+	}
+	// one generated file per package registers the addresses of its package-level variables
+	for _, p := range pkgs {
+		if len(p.vars) == 0 || p.goName == "" {
+			continue
+		}
+		var names []string
+		for v := range p.vars {
+			names = append(names, v)
+		}
+		sort.Strings(names)
+		var sb strings.Builder
+		fmt.Fprintf(&sb, "package %s\n\nimport \"%s/verifhook\"\n\nfunc init() {\n", p.goName, modPath)
+		for _, v := range names {
+			fmt.Fprintf(&sb, "\tverifhook.Globals[%q] = &%s\n", p.name+"."+v, v)
+		}
+		sb.WriteString("}\n")
+		dst := filepath.Join(outDir, strings.ReplaceAll(p.name, "/", "_")+"__zz_verifglobals.go")
+		if err := os.WriteFile(dst, []byte(sb.String()), 0o644); err != nil {
+			return nil, "", err
+		}
+		overlay[filepath.Join(p.dir, "zz_verifglobals.go")] = dst
 	}
 	b, _ := json.MarshalIndent(map[string]any{"Replace": overlay}, "", " ")
 	ov := filepath.Join(outDir, "overlay.json")
